@@ -414,6 +414,8 @@ func (r *Registry) Box(t types.Type) *BoxInfo {
 	r.funDecl = append(r.funDecl,
 		fmt.Sprintf("(declare-fun box_%s (%s) Any)", b.Key, s),
 		fmt.Sprintf("(declare-fun unbox_%s (Any) %s)", b.Key, s))
+	r.declared["box_"+b.Key] = true
+	r.declared["unbox_"+b.Key] = true
 	r.axioms = append(r.axioms,
 		fmt.Sprintf("(assert (forall ((x %s)) (! (and (= (unbox_%s (box_%s x)) x) (= (tag (box_%s x)) %d)) :pattern ((box_%s x)))))", s, b.Key, b.Key, b.Key, b.Tag, b.Key),
 		fmt.Sprintf("(assert (forall ((a Any)) (! (=> (= (tag a) %d) (= (box_%s (unbox_%s a)) a)) :pattern ((unbox_%s a)))))", b.Tag, b.Key, b.Key, b.Key))
